@@ -41,7 +41,13 @@ def _c06_nontrivial(r):
     parts = r.split()
     return parts[0] in ("ecc", "rs") and len(parts) > 2 and parts[2].strip("0-") != ""
 
+def _c07_nontrivial(r):
+    parts = r.split()
+    if parts[0] == "layout": return True
+    return parts[0] == "write" and parts[2].strip("0-") != ""
+
 NONTRIVIAL = {
+    "C07": _c07_nontrivial,
     "C12": _c12_nontrivial,
     "C06": _c06_nontrivial,
 }
@@ -55,6 +61,19 @@ def count_nontrivial(pid, reqs):
     return len(seen)
 
 PROPS = {
+    "C07": {
+        "lean": ["DM.Props.C07"],
+        "gens": ["c07"],
+        "level": "proof",
+        "exhaustive": True,
+        "release": True,
+        "rule": "cases: for each of the 48 sizes the complete (codeword, bit) -> module map observed through the public traverse_mut (exhaustive: every pair of every size, see input_distribution.codeword_bit_pairs), plus new_with_codewords on zero / all-ones / unit / random vectors with the entry vector read back and codewords() compared with the input; non-trivial = distinct layout requests and write requests with a non-zero vector",
+        "explanation": "placement_conformant: for every size of the regenerated catalogue and every codeword vector of the size's length, the model of new_with_codewords stores bit 7-k of codeword i in the module that the transcription of ISO/IEC 16022 Annex F (+ ISO 21471 row wrap) assigns to (i,k), the four left-over modules of 12/16/20/24 carry dark/light/light/dark, and codewords() returns the vector. Per size the kernel evaluates both the model of IndexTraversal::run and Annex F and checks equality, injectivity (bit set), range, count and the corner cells; the lift to all vectors is by induction (writing through distinct positions). The model is tied to the code exhaustively: the full map of every size is observed through the public API.",
+        "level_text": "Proof: full statement (all sizes, all vectors, every codeword bit, fixed pattern, read-after-write) is a kernel-checked theorem about the model; the model's map equals the implementation's map for every (codeword, bit) pair of every size (exhaustive correspondence).",
+        "level_note": "Trusted: Lean kernel, standard axioms, the transcription of Annex F in DM/Spec/AnnexF.lean (the definition of conformance), address arithmetic in the harness to observe entry positions through traverse_mut.",
+        "technique": "Lean 4 theorem (kernel evaluation of traversal vs Annex F per size + induction over writes) with exhaustive model/implementation correspondence",
+        "assumptions": ["new_with_codewords is called with at least the size's number of codewords (documented panic otherwise)"],
+    },
     "C06": {
         "lean": ["DM.Props.C06"],
         "gens": ["c06"],
